@@ -33,101 +33,193 @@ type vfGuardian struct {
 	obsvC chan *gossipv1.SignedObservation
 }
 
+// vfObserve feeds one MessagePublication to the real handleMessage of guardian g and reports what the node signed:
+// the signing body of the VAA it built (ourVAA), whether the aggregation key and the hash in the signed observation on
+// sendC are the double Keccak of that body, or signed = false when the node did not sign at all.
+func vfObserve(ctx context.Context, g *vfGuardian, k *common.MessagePublication) (signed bool, body []byte, hash string, keyH2 bool, panicked string) {
+	g.p.state.vaaSignatures = vaaMap{}
+	if p := vfCatch(func() { g.p.handleMessage(ctx, k) }); p != "" {
+		return false, nil, "", false, p
+	}
+	var sh []byte
+	select {
+	case b := <-g.sendC:
+		var gm gossipv1.GossipMessage
+		if err := proto.Unmarshal(b, &gm); err == nil {
+			if o := gm.GetSignedObservation(); o != nil {
+				sh = o.Hash
+			}
+		}
+	default:
+	}
+	for len(g.sendC) > 0 {
+		<-g.sendC
+	}
+	for len(g.obsvC) > 1000 {
+		<-g.obsvC
+	}
+	if len(g.p.state.vaaSignatures) == 0 && sh == nil {
+		return false, nil, "", true, "" // nothing signed
+	}
+	if len(g.p.state.vaaSignatures) != 1 || sh == nil {
+		return true, nil, hex.EncodeToString(sh), false, "" // signed something, but not one entry + one observation
+	}
+	keyH2 = true
+	for key, st := range g.p.state.vaaSignatures {
+		if st.ourVAA == nil {
+			return true, nil, hex.EncodeToString(sh), false, ""
+		}
+		body = st.ourVAA.SerializeBody()
+		want := vfKeccak2(body)
+		if key != hex.EncodeToString(want) || !bytes.Equal(sh, want) || st.ourVAA.GuardianSetIndex != g.p.gs.Index {
+			keyH2 = false
+		}
+	}
+	return true, body, hex.EncodeToString(sh), keyH2, ""
+}
+
+// variants of the VAA that the store of ONE guardian already holds for the message id of the observed message
+var vfStoredVariants = []string{"same-body", "other-payload", "other-nonce", "ts-1s+other-payload", "ts-29s+other-consistency", "ts-31s+other-payload"}
+
+func vfStoredVAA(m *vaa.VAA, variant string, key *vhKeys) *vaa.VAA {
+	st := &vaa.VAA{Version: 1, GuardianSetIndex: 5, Timestamp: time.Unix(m.Timestamp.Unix(), 0), Nonce: m.Nonce, Sequence: m.Sequence,
+		ConsistencyLevel: m.ConsistencyLevel, EmitterChain: m.EmitterChain, TargetChain: m.TargetChain, EmitterAddress: m.EmitterAddress,
+		Payload: append([]byte{}, m.Payload...)}
+	back := func(d int64) {
+		if u := m.Timestamp.Unix(); u >= d {
+			st.Timestamp = time.Unix(u-d, 0)
+		}
+	}
+	otherPayload := func() { st.Payload = append(append([]byte{}, m.Payload...), 0x5a) }
+	switch variant {
+	case "same-body":
+		if len(st.Payload) == 0 {
+			otherPayload() // an empty payload cannot be stored decodably
+		}
+	case "other-payload":
+		otherPayload()
+	case "other-nonce":
+		st.Nonce ^= 0x00010000
+		if len(st.Payload) == 0 {
+			otherPayload()
+		}
+	case "ts-1s+other-payload":
+		back(1)
+		otherPayload()
+	case "ts-29s+other-consistency":
+		back(29)
+		st.ConsistencyLevel ^= 0x01
+		if len(st.Payload) == 0 {
+			otherPayload()
+		}
+	case "ts-31s+other-payload":
+		back(31)
+		otherPayload()
+	}
+	st.AddSignature(key.Key("g3"), 0)
+	return st
+}
+
 // vfProcBodies feeds every C04 body value, as a MessagePublication with a sub-second time part, to the real
-// handleMessage of two different guardians (different key, different guardian set and set index) and records
-// the signing body of the VAA each of them built and the 32 bytes each of them signed.
+// handleMessage of different guardians (different key, different guardian set and set index) and records the signing
+// body of the VAA each of them built and the 32 bytes each of them signed.  Every value is observed
+//
+//	(1) by two guardians with empty stores, and
+//	(2) by a guardian whose store ALREADY HOLDS a signed VAA for the same message id (same body / other payload /
+//	    other nonce / 1, 29, 31 s older) next to a guardian with an empty store: whenever a node signs at all
+//	    (it may ignore a late observation) it must sign the digest of the OBSERVED message.
 func vfProcBodies(t *testing.T, vecs []vfVector, tr *vhTrace) {
 	database, err := db.Open(t.TempDir())
 	if err != nil {
 		t.Fatal(err)
 	}
 	defer database.Close()
+	storeDB, err := db.Open(t.TempDir())
+	if err != nil {
+		t.Fatal(err)
+	}
+	defer storeDB.Close()
 	keys := vhNewKeys("vf-proc")
 	done := make(chan struct{})
 	ctx, cancel := context.WithCancel(context.Background())
 	defer cancel()
 	supervisor.New(ctx, zap.NewNop(), func(ctx context.Context) error {
 		defer close(done)
-		mk := func(self string, gs *common.GuardianSet) *vfGuardian {
+		mk := func(self string, d *db.Database, gs *common.GuardianSet) *vfGuardian {
 			g := &vfGuardian{sendC: make(chan []byte, 64), obsvC: make(chan *gossipv1.SignedObservation, 1<<16)}
 			gst := common.NewGuardianSetState(nil)
-			g.p = NewProcessor(ctx, database, nil, nil, g.sendC, g.obsvC, make(chan *gossipv1.ObservationRequest, 16), nil, nil,
+			g.p = NewProcessor(ctx, d, nil, nil, g.sendC, g.obsvC, make(chan *gossipv1.ObservationRequest, 16), nil, nil,
 				&ecdsasigner.ECDSAPrivateKey{Value: keys.Key(self)}, gst, reporter.EventListener(zap.NewNop()), nil,
 				vaa.ChainID(60000), vaa.Address{0: 0xee, 31: 4})
 			g.p.gs = gs
 			gst.Set(gs)
 			return g
 		}
-		gs := []*vfGuardian{
-			mk("g1", &common.GuardianSet{Index: 0, Keys: []ethcommon.Address{keys.Addr("g1")}}),
-			mk("g2", &common.GuardianSet{Index: 0xfffffff7, Keys: []ethcommon.Address{keys.Addr("g3"), keys.Addr("g2"), keys.Addr("g1")}}),
-		}
+		g1 := mk("g1", database, &common.GuardianSet{Index: 0, Keys: []ethcommon.Address{keys.Addr("g1")}})
+		g2 := mk("g2", database, &common.GuardianSet{Index: 0xfffffff7, Keys: []ethcommon.Address{keys.Addr("g3"), keys.Addr("g2"), keys.Addr("g1")}})
+		g3 := mk("g3", storeDB, &common.GuardianSet{Index: 5, Keys: []ethcommon.Address{keys.Addr("g3"), keys.Addr("g4")}})
 		subsecs := []int64{0, 1, 999999999, 500000000}
 		for i := range vecs {
 			vc := &vecs[i]
-			bodies, signedHashes := map[string]bool{}, map[string]bool{}
-			present, keyH2 := true, true
-			var firstBody []byte
-			panicked := ""
-			for gi, g := range gs {
-				g.p.state.vaaSignatures = vaaMap{}
-				m := vfToGo(vc.V)
-				k := &common.MessagePublication{TxHash: ethcommon.Hash{1, byte(i), byte(gi)},
-					Timestamp: time.Unix(m.Timestamp.Unix(), subsecs[(i+gi)%len(subsecs)]), Nonce: m.Nonce, Sequence: m.Sequence,
-					ConsistencyLevel: m.ConsistencyLevel, EmitterChain: m.EmitterChain, TargetChain: m.TargetChain,
-					EmitterAddress: m.EmitterAddress, Payload: m.Payload}
-				if p := vfCatch(func() { g.p.handleMessage(ctx, k) }); p != "" {
-					panicked = p
-					continue
-				}
-				var signed []byte
-				select {
-				case b := <-g.sendC:
-					var gm gossipv1.GossipMessage
-					if err := proto.Unmarshal(b, &gm); err == nil {
-						if o := gm.GetSignedObservation(); o != nil {
-							signed = o.Hash
-						}
+			m := vfToGo(vc.V)
+			for pass := 0; pass < 2; pass++ {
+				gs := []*vfGuardian{g1, g2}
+				variant := ""
+				if pass == 1 {
+					// the store of g3 holds a signed VAA for this message id (overwriting what an earlier case left there)
+					variant = vfStoredVariants[vc.ID%len(vfStoredVariants)]
+					if err := storeDB.StoreSignedVAA(vfStoredVAA(m, variant, keys)); err != nil {
+						t.Fatal(err)
 					}
-				default:
+					gs = []*vfGuardian{g3, g2}
 				}
-				for len(g.sendC) > 0 {
-					<-g.sendC
-				}
-				for len(g.obsvC) > 1000 {
-					<-g.obsvC
-				}
-				if len(g.p.state.vaaSignatures) != 1 || signed == nil {
-					present = false
-					continue
-				}
-				for key, st := range g.p.state.vaaSignatures {
-					if st.ourVAA == nil {
+				bodies, hashes := map[string]bool{}, map[string]bool{}
+				present, keyH2, storeSigned := true, true, false
+				var firstBody []byte
+				panicked := ""
+				for gi, g := range gs {
+					k := &common.MessagePublication{TxHash: ethcommon.Hash{1, byte(i), byte(gi)},
+						Timestamp: time.Unix(m.Timestamp.Unix(), subsecs[(i+gi+pass)%len(subsecs)]), Nonce: m.Nonce, Sequence: m.Sequence,
+						ConsistencyLevel: m.ConsistencyLevel, EmitterChain: m.EmitterChain, TargetChain: m.TargetChain,
+						EmitterAddress: m.EmitterAddress, Payload: m.Payload}
+					signed, body, hash, kh, p := vfObserve(ctx, g, k)
+					if p != "" {
+						panicked = p
+						continue
+					}
+					mayIgnore := pass == 1 && g == g3
+					if !signed {
+						if !mayIgnore {
+							present = false
+						}
+						continue
+					}
+					if mayIgnore {
+						storeSigned = true
+					}
+					if body == nil {
 						present = false
 						continue
 					}
-					body := st.ourVAA.SerializeBody()
 					if firstBody == nil {
 						firstBody = body
 					}
 					bodies[string(body)] = true
-					signedHashes[hex.EncodeToString(signed)] = true
-					want := vfKeccak2(body)
-					if key != hex.EncodeToString(want) || !bytes.Equal(signed, want) {
-						keyH2 = false
-					}
-					if st.ourVAA.GuardianSetIndex != g.p.gs.Index {
-						keyH2 = false
-					}
+					hashes[hash] = true
+					keyH2 = keyH2 && kh
 				}
+				a := vfTag(map[string]interface{}{"v": vfValToMap(vc.V)}, vc)
+				s := map[string]interface{}{"present": present, "keyH2": keyH2, "body": vfInts(firstBody),
+					"distinctBodies": len(bodies), "distinctKeys": len(hashes), "guardians": len(gs)}
+				if pass == 1 {
+					a["stored"] = variant
+					s["storeGuardianSigned"] = storeSigned
+				}
+				if panicked != "" {
+					s["panic"] = panicked
+				}
+				tr.Emit(1, "ProcBody", a, s)
 			}
-			a := vfTag(map[string]interface{}{"v": vfValToMap(vc.V)}, vc)
-			s := map[string]interface{}{"present": present, "keyH2": keyH2, "body": vfInts(firstBody),
-				"distinctBodies": len(bodies), "distinctKeys": len(signedHashes), "guardians": len(gs)}
-			if panicked != "" {
-				s["panic"] = panicked
-			}
-			tr.Emit(1, "ProcBody", a, s)
 		}
 		supervisor.Signal(ctx, supervisor.SignalDone)
 		return nil
